@@ -11,7 +11,7 @@ CLAIMED = {
          "Proof: what the code integrates (range cut at x/a, early return below the support) equals the convolution integral of reg + sing(p/z - p(x)) plus p(x) loc(x) for every x in (0,1) "
          "and every function vanishing outside [a,b]; with loc' = -sing (C03) that is the distribution reg + [sing]_+ + loc(0) delta; linear in the basis function, hence contracting "
          "with any PDF in the span reproduces its convolution; pure delta gives loc p_j(x); accumulation over any number of channels is additive; the basis is 1 at its node and 0 at the "
-         "others on every area of every grid. PARTIAL: exact quadrature and eps = 0 are idealised (the eps borders are in the executable plan); which kernels/weights/convolution points "
+         "others on every area of every grid. For kernels with ln^k(1-z) (not Riemann integrable up to z = 1) the same linearity / contraction statements are proved for the improper integral (ConvGen.v). PARTIAL: exact quadrature and eps = 0 are idealised (the eps borders are in the executable plan); which kernels/weights/convolution points "
          "enter is the Combiner's (C02, C07, C09). Entries of real runs are compared with an independent reference quadrature on every run.",
          "Trusted: Coq kernel+vm_compute, Coquelicot; harnesses; tools/lib/refconv.py + scipy in the patrol; eko's basis modelled by hand (third party).", "0.3 / 4 C01"),
  "C19": ("Coq theorems over an abstract field (field for blocks of 2..5 nodes, induction for the Kronecker property, lia for the block rule) and over the reals (Coquelicot: Taylor-Lagrange, "
